@@ -251,9 +251,9 @@ func c12AllCells() []c12Cell {
 					continue
 				}
 				for _, how := range c12Hows {
-					for _, kind := range []string{"fresh", "clone", "changed", "changed-same"} {
+					for _, kind := range []string{"fresh", "clone", "changed", "changed-same", "redial"} {
 						for _, custom := range []string{"none", "dialtls", "handshake", "fp", "fp>handshake", "handshake>fp", "fp>dialtls"} {
-							if kind == "changed-same" && custom != "none" {
+							if (kind == "changed-same" || kind == "redial") && custom != "none" {
 								continue
 							}
 							fp := strings.Contains(custom, "fp")
@@ -268,7 +268,7 @@ func c12AllCells() []c12Cell {
 								h3ons = []bool{false, true}
 							}
 							for _, h3on := range h3ons {
-								if kind == "changed-same" && h3on && offer == "alt" {
+								if (kind == "changed-same" || kind == "redial") && h3on && offer == "alt" {
 									continue // the first request would learn Alt-Svc: that sequence is lane c12seq's
 								}
 								cell := c12Cell{force: force, h3on: h3on, offer: offer, tls: tc, how: how, kind: kind, custom: custom, scheme: "https"}
@@ -799,7 +799,7 @@ func c12RunCell(w *c12World, cell c12Cell, dir string) []c12Step {
 		}
 		target(c)
 	}
-	if cell.kind == "changed-same" {
+	if cell.kind == "changed-same" || cell.kind == "redial" {
 		// "settings changed after first use", same host, same stack: phase 1 makes (or fails to
 		// make) a connection of the SAME forced version to the SAME origin under the opposite
 		// verdict; the settings are then changed — in place for the helpers and the accessor
@@ -809,6 +809,13 @@ func c12RunCell(w *c12World, cell c12Cell, dir string) []c12Step {
 		first := c12TLS{name: "phase1-default"}
 		if !cell.tls.accept() {
 			first = c12TLS{name: "phase1-insecure", insecure: true, cert: "ok"}
+		}
+		if cell.kind == "redial" {
+			// connection RE-ESTABLISHMENT: phase 1 succeeds under settings that VERIFY the origin
+			// (private root trusted, client certificate present) — the origins issue session
+			// tickets, so a stack that kept a session cache would resume after the connection went
+			// away and skip the chain check against the roots in force by then
+			first = c12TLS{name: "phase1-verified", roots: "good", cert: "ok"}
 		}
 		if cell.h3on {
 			c.EnableHTTP3()
@@ -978,6 +985,19 @@ func TestVerif_C12_e2e(t *testing.T) {
 	cells := all
 	if !verifh.Thorough() {
 		cells = c12Pairwise(s, all, 420)
+		// the Alt-Svc upgrade sequences (second / third request, other origins afterwards) need a
+		// particular triple of dimension values: always keep a few, whatever the pairwise pass chose
+		r := s.Rand()
+		var upg []c12Cell
+		for _, c := range all {
+			if c.h3on && c.force == "-" && c.offer == "alt" && c.custom == "none" && (c.kind == "fresh" || c.kind == "clone") && c.tls.accept() {
+				upg = append(upg, c)
+			}
+		}
+		r.Shuffle(len(upg), func(i, j int) { upg[i], upg[j] = upg[j], upg[i] })
+		for i := 0; i < 4 && i < len(upg); i++ {
+			cells = append(cells, upg[i])
+		}
 	}
 	c12Count(s, fmt.Sprintf("cells-total-%d", len(all)))
 	res := c12RunParallel(w, cells, dir, 8)
@@ -1014,7 +1034,7 @@ func TestVerif_C12_e2e(t *testing.T) {
 			s.Case(st.line, st.impl, st.propOK, st.class, true, human)
 		}
 	}
-	for _, must := range []string{"impl:ok:h1", "impl:ok:h2", "impl:ok:h3", "impl:err:tls", "impl:err:other", "kind=clone", "kind=changed", "kind=changed-same", "custom=dialtls", "custom=handshake", "custom=fp", "custom=fp>handshake", "custom=handshake>fp", "custom=fp>dialtls", "clone&fp>handshake", "other-origin-after-altsvc", "offer=alt", "offer=mtls", "offer=h2c", "force=3"} {
+	for _, must := range []string{"impl:ok:h1", "impl:ok:h2", "impl:ok:h3", "impl:err:tls", "impl:err:other", "kind=clone", "kind=changed", "kind=changed-same", "kind=redial", "custom=dialtls", "custom=handshake", "custom=fp", "custom=fp>handshake", "custom=handshake>fp", "custom=fp>dialtls", "clone&fp>handshake", "other-origin-after-altsvc", "offer=alt", "offer=mtls", "offer=h2c", "force=3"} {
 		if c12Hist[s][must] == 0 && !(must == "impl:ok:h3" && c12Hist[s]["impl:err:tls"] > 0) {
 			t.Errorf("matrix never reached bucket %q", must)
 		}
@@ -1044,7 +1064,7 @@ func TestVerif_C12_uniform(t *testing.T) {
 	var combos []combo
 	for _, tc := range c12TLSCells {
 		for _, how := range c12Hows {
-			for _, kind := range []string{"fresh", "clone", "changed", "changed-same"} {
+			for _, kind := range []string{"fresh", "clone", "changed", "changed-same", "redial"} {
 				combos = append(combos, combo{tc, how, kind})
 			}
 		}
@@ -1056,10 +1076,13 @@ func TestVerif_C12_uniform(t *testing.T) {
 		per := map[string]int{}
 		var keep []combo
 		for _, c := range combos {
-			if per[c.tc.name] < 5 || (c.kind == "changed-same" && per[c.tc.name+"/same"] < 2) {
+			if per[c.tc.name] < 5 || (c.kind == "changed-same" && per[c.tc.name+"/same"] < 2) || (c.kind == "redial" && per[c.tc.name+"/redial"] < 2) {
 				per[c.tc.name]++
 				if c.kind == "changed-same" {
 					per[c.tc.name+"/same"]++
+				}
+				if c.kind == "redial" {
+					per[c.tc.name+"/redial"]++
 				}
 				keep = append(keep, c)
 			}
@@ -1120,7 +1143,7 @@ func TestVerif_C12_uniform(t *testing.T) {
 // afterwards.
 func TestVerif_C12_seq(t *testing.T) {
 	s := verifh.New(t, "C12", "c12seq",
-		"designed sequences x TLS {private root, insecure} x {original, clone after learning}: (a) un-forced+HTTP/3 learns Alt-Svc over h2, then EnableForceHTTP1 / EnableForceHTTP2 / DisableHTTP3 / stays un-forced -> next request; (b) https warm-up, clear-text origin advertising Alt-Svc, next clear-text request; (c) EnableH2C then an https request (force none / h2); (d) EnableForceHTTP3 then DisableHTTP3; (e) Alt-Svc learned and confirmed for origin A (3 requests), then one request each to six OTHER origins on the same host / other ports (h2+h1, h1, no ALPN, h2+h1+h3, h1+h3, A's advertising twin); each request compared with Dispatch.route and judged by the oracle")
+		"designed sequences x TLS {private root, insecure} x {original, clone after learning}: (a) un-forced+HTTP/3 learns Alt-Svc over h2, then EnableForceHTTP1 / EnableForceHTTP2 / DisableHTTP3 / stays un-forced -> next request; (b) https warm-up, clear-text origin advertising Alt-Svc, next clear-text request; (c) EnableH2C then an https request (force none / h2); (d) EnableForceHTTP3 then DisableHTTP3; (f) Alt-Svc learned AND CONFIRMED by a successful HTTP/3 exchange, then EnableForceHTTP1 / EnableForceHTTP2 (and DisableForceHttpVersion again) -> next request; (e) Alt-Svc learned and confirmed for origin A (3 requests), then one request each to six OTHER origins on the same host / other ports (h2+h1, h1, no ALPN, h2+h1+h3, h1+h3, A's advertising twin); each request compared with Dispatch.route and judged by the oracle")
 	w, err := c12StartWorld()
 	if err != nil {
 		t.Fatalf("infrastructure: %v", err)
@@ -1268,6 +1291,58 @@ func TestVerif_C12_seq(t *testing.T) {
 				c.GetTransport().CloseIdleConnections()
 			}
 		}
+		// (f) forcing changed AFTER the alternative was learned AND CONFIRMED (a successful HTTP/3
+		// exchange moved the entry from the pending map into the jar): the forced version governs;
+		// un-forced again the confirmed entry is used again
+		for _, tc := range []c12TLS{c12TLSCells[1], c12TLSCells[3]} {
+			for _, later := range []string{"force1", "force2", "force1-unforce", "force2-unforce"} {
+				a := w.origins["alt"][rep%2]
+				c := C().EnableHTTP3()
+				c12ApplyTLS(c, tc, "helpers-string", dir)
+				id := c12CellSeq.Add(1)
+				rec := &c12CustomRec{}
+				cell := c12Cell{force: "-", h3on: true, offer: "alt", tls: tc, how: "helpers-string", kind: "fresh", custom: "none", scheme: "https"}
+				st := c12ReqState{}
+				confirmed := false
+				for k := 0; k < 4 && !confirmed; k++ {
+					sa := c12Request(c, a, cell, "-", true, tc, "12", rec, st, fmt.Sprintf("/q%d/f%d", id, k), &noDials)
+					sa.human = fmt.Sprintf("seq(f:%s) tls=%s: un-forced request %d to %s (alt entry ready=%v)", later, tc.name, k+1, a.offer, st.alt)
+					record(sa)
+					if !strings.HasPrefix(sa.impl, "ok:") {
+						break
+					}
+					if k == 0 {
+						st.cachedH2 = sa.impl == "ok:h2"
+						st.alt = c12WaitAlt(c.GetTransport(), a.url("https", "/"))
+					} else if sa.impl == "ok:h3" {
+						st.cachedH3 = true
+						confirmed = true
+					}
+				}
+				if !confirmed {
+					continue
+				}
+				c12Count(s, "f:confirmed")
+				force := map[string]string{"force1": "1", "force2": "2", "force1-unforce": "1", "force2-unforce": "2"}[later]
+				c12ForceApply(c, force)
+				fcell := cell
+				fcell.force = force
+				s1 := c12Request(c, a, fcell, force, true, tc, "12", rec, st, fmt.Sprintf("/q%d/forced", id), &noDials)
+				s1.human = fmt.Sprintf("seq(f:%s) tls=%s: Alt-Svc h3 CONFIRMED, then EnableForceHTTP%s, request", later, tc.name, force)
+				record(s1)
+				c12Count(s, "f:forced-after-confirmed")
+				if strings.HasSuffix(later, "-unforce") {
+					c.DisableForceHttpVersion()
+					if s1.impl == "ok:h2" {
+						st.cachedH2 = true
+					}
+					s2 := c12Request(c, a, cell, "-", true, tc, "12", rec, st, fmt.Sprintf("/q%d/unforced", id), &noDials)
+					s2.human = fmt.Sprintf("seq(f:%s) tls=%s: un-forced again, request", later, tc.name)
+					record(s2)
+				}
+				c.GetTransport().CloseIdleConnections()
+			}
+		}
 		// (d) EnableForceHTTP3 then DisableHTTP3
 		{
 			o := w.origins["all"][rep%2]
@@ -1323,7 +1398,7 @@ func TestVerif_C12_seq(t *testing.T) {
 	for _, st := range pending {
 		flush(*st)
 	}
-	for _, must := range []string{"a:force1", "a:force2", "b:plain-altsvc", "c:h2c-https", "d:force3-disable", "alt-entry-ready", "e:other-origin"} {
+	for _, must := range []string{"a:force1", "a:force2", "b:plain-altsvc", "c:h2c-https", "d:force3-disable", "alt-entry-ready", "e:other-origin", "f:forced-after-confirmed"} {
 		if c12Hist[s][must] == 0 {
 			t.Errorf("never reached bucket %q", must)
 		}
